@@ -10,7 +10,7 @@ from tradingenv.env import TradingEnv
 from tradingenv.contracts import ETF, Stock, ES, ZN, NK, VX, Rate, Cash, FutureChain, AbstractContract
 from tradingenv.spaces import BoxPortfolio, DiscretePortfolio
 from tradingenv.transmitter import Transmitter
-from tradingenv.events import EventNBBO
+from tradingenv.events import EventNBBO, IEvent
 from tradingenv.broker.fees import BrokerFees
 from tradingenv.rewards import RewardPnL, RewardLogReturn, LogReturn, RewardSimpleReturn
 
@@ -121,6 +121,13 @@ def build(ctx, chain=False, discrete=False):
     return env, sink, cfg
 
 
+class _Note(IEvent):
+    """An event that nothing in the environment observes."""
+
+    def __init__(self, time):
+        self.time = time
+
+
 def rebuild_with_latency(ctx, cfg, env):
     """A NEW TradingEnv on the SAME Transmitter (data loaded once, environment rebuilt)
     with a different latency: the latent / non-latent split must follow the new latency."""
@@ -154,6 +161,12 @@ def ledger_episode(ctx, props, chain=False, discrete=False, prebuilt=None):
     rng = ctx.rng
     env, sink, cfg = prebuilt if prebuilt is not None else build(ctx, chain, discrete)
     chain, discrete = cfg["chain"], cfg["discrete"]
+    if prebuilt is None and "C08" in props and cfg["evs"] and rng.random() < 0.3:
+        # more events are handed to the transmitter AFTER the environment was built (nobody observes this kind,
+        # it is stamped where quotes already are): the latent / non-latent split of the environment's latency
+        # must survive it
+        cfg["transmitter"].add_events([_Note(rng.choice(cfg["evs"]).time) for _ in range(rng.randint(0, 2))])
+        ctx.cat("events-added-after-environment-built")
     del sink.log[:]
     cs, grid, L, d, fees, rate = cfg["cs"], cfg["grid"], cfg["L"], cfg["d"], cfg["fees"], cfg["rate"]
     rw, cash0, evs = cfg["rw"], cfg["cash0"], cfg["evs"]
@@ -179,6 +192,19 @@ def ledger_episode(ctx, props, chain=False, discrete=False, prebuilt=None):
             o, r, done, info = env.step(a)
             outs.append((r, info, mark, len(sink.log)))
             k += 1
+            if "C07" in props and rng.random() < 0.25 and len(env.broker.track_record):
+                # the record is read while it is still being filled (progress report): what it says now is the
+                # decisions so far, and reading it must not change what it says at the end of the episode
+                tr_ = env.broker.track_record
+                mid = tr_.net_liquidation_value()
+                mid2 = tr_.net_liquidation_value(before_rebalancing=False)
+                midc = tr_.transaction_costs(cumulative=False)
+                midw = tr_.weights_actual()
+                ctx.check("C07:record-read-mid-episode", len(mid) == len(mid2) == len(midc) == len(midw) == len(tr_) and
+                          float(mid.iloc[-1, 0]) == float(tr_[-1].context_pre.nlv) and
+                          float(mid2.iloc[-1, 0]) == float(tr_[-1].context_post.nlv),
+                          entries=len(tr_), rows=[len(mid), len(mid2), len(midc), len(midw)])
+                ctx.cat("record-read-mid-episode")
     trk = env.broker.track_record
     C07, C08, C01 = "C07" in props, "C08" in props, "C01" in props
     if C07:
